@@ -344,7 +344,12 @@ func genDevice(r *RNG, b *iosDev) (*iosDev, []string) {
 		case k < 45 && len(a.AOrder) > 0:
 			name := Pick(r, a.AOrder)
 			ls := a.bodies(name)
-			switch r.Intn(8) {
+			switch r.Intn(10) {
+			case 8, 9:
+				// order inside runs of equal action changed: equivalent to the unchanged list (stresses
+				// "unchanged only if equivalent", ios_F2_quiet and the second compare)
+				ls = permuteBlocks(r, ls)
+				say("acl-permute-inside-blocks")
 			case 0:
 				if len(ls) > 1 {
 					i := r.Intn(len(ls))
@@ -589,6 +594,22 @@ func genDevice(r *RNG, b *iosDev) (*iosDev, []string) {
 	return a, note
 }
 
+// permuteBlocks shuffles every maximal run of lines of equal action (remark lines end a run).
+func permuteBlocks(r *RNG, ls []string) []string {
+	out := append([]string{}, ls...)
+	for i := 0; i < len(out); {
+		j := i + 1
+		for j < len(out) && actOf(out[j]) == actOf(out[i]) && actOf(out[i]) != "r" {
+			j++
+		}
+		if j-i > 1 {
+			Shuffle(r, out[i:j])
+		}
+		i = j
+	}
+	return out
+}
+
 func genCase(r *RNG) cfgCase {
 	b := genTarget(r)
 	a, note := genDevice(r, b)
@@ -781,6 +802,15 @@ func run(ctx *Ctx) *Result {
 		countHits(res, f["hits"])
 		res.Count("end-to-end-theorem-applies(wfB):" + f["wf"])
 		res.Count("wfB-first-failing-conjunct:" + f["wfwhy"])
+		// ios_F2_quiet: a statically settled pair gives the empty script
+		empty := strings.TrimSpace(out) == ""
+		res.Count(fmt.Sprintf("%s:settledB=%s,script-empty=%v", stream, f["settled"], empty))
+		if f["settled"] != "1" {
+			res.Count(stream + ":settledB-first-failing-conjunct:" + f["settledwhy"])
+		}
+		if f["settled"] == "1" && !empty {
+			res.Disagree(stream+": settledB holds but drc prints changes (contradicts ios_F2_quiet)", c, out, "settled=1")
+		}
 		if f["wf"] == "1" && !strings.HasPrefix(f["exec"], "ok") {
 			// the theorem says: accepted; cross-check its conclusion on this very case
 			res.Disagree(stream+": wfB holds but the Lean device rejects the model script (contradicts ios_F2_converges_partial)", c, "", f["exec"])
@@ -915,6 +945,20 @@ func run(ctx *Ctx) *Result {
 			res.Sample(map[string]any{"device": c.Dev, "netspoc": c.Spoc, "script": out, "mutations": c.Note})
 		}
 		if prop == "C02" {
+			if len(cmds) == 0 {
+				res.Count("unchanged-reported:wfB=" + f["wf"])
+			} else if c.dev.managedView(intfs, rvrfs, withRoutes) == wantView {
+				res.Count("changes-reported-for-equivalent-device(cosmetic)")
+			}
+			if len(cmds) == 0 && f["wf"] == "1" && c.dev.managedView(intfs, rvrfs, withRoutes) != wantView {
+				res.Disagree("F2: wfB holds, empty script, but the device is not equivalent to the target (contradicts ios_F2_unchanged_only_if_equivalent)", c, c.dev.managedView(intfs, rvrfs, withRoutes), wantView)
+			}
+			if len(cmds) == 0 && c.dev.managedView(intfs, rvrfs, withRoutes) != wantView {
+				s := sig("unchanged_reported_for_different_acl")
+				s["suppressed_move_at_remark"] = remarkSuppr
+				res.Fail(s, "empty script although the device is not equivalent", c)
+				return
+			}
 			if got := final.managedView(intfs, rvrfs, withRoutes); got != wantView {
 				if f["wf"] == "1" {
 					res.Disagree("F2: wfB holds but the executed result is not equivalent to the target (contradicts ios_F2_converges_partial)", c, got, wantView)
@@ -926,6 +970,9 @@ func run(ctx *Ctx) *Result {
 			}
 			for _, n := range final.AOrder {
 				if strings.Contains(n, "-DRC-") && !final.aclBound(n) {
+					if f["wf"] == "1" {
+						res.Disagree("F2: wfB holds but an unbound generated access-list remains (contradicts ios_no_generated_leftover)", c, n, "")
+					}
 					res.Fail(sig("leftover_generated_object"), "unbound generated access-list remains: "+n, c)
 				}
 			}
@@ -937,10 +984,15 @@ func run(ctx *Ctx) *Result {
 				s["suppressed_move_at_remark"] = remarkSuppr || remarkHit(f2)
 				res.Fail(s, "second compare reports changes:\n"+out2, c)
 			}
-			if len(cmds) == 0 && c.dev.managedView(intfs, rvrfs, withRoutes) != wantView {
-				s := sig("unchanged_reported_for_different_acl")
-				s["suppressed_move_at_remark"] = remarkSuppr
-				res.Fail(s, "empty script although the device is not equivalent", c)
+			if f["wf"] == "1" {
+				// ios_F2_idempotent_partial: first pair in the class of the end-to-end theorem; the second
+				// compare is statically settled (then ios_F2_quiet says: empty) or not
+				res.Count("second-compare-after-wfB-run:settledB=" + f2["settled"] + ":" + f2["settledwhy"])
+				// ios_F2_idempotent_partial: after a wfB run every conjunct of settledB except the one about the
+				// line planner (which depends on the Myers scripts of the second compare) is a theorem
+				if v2 == "ok" && f2["settled"] != "1" && f2["settledwhy"] != "line-planner-not-quiet" {
+					res.Disagree("F2: wfB run, but the second compare is not statically settled: "+f2["settledwhy"]+" (contradicts ios_F2_idempotent_partial)", c, final.print(), f2["settledwhy"])
+				}
 			}
 		}
 		if prop == "C14" {
@@ -1086,6 +1138,10 @@ func corpus() []cfgCase {
 		// F-C07c (repaired): an interface unknown to Netspoc shares its ACL with a managed one
 		mk("ip access-list extended e0_in\n permit tcp any any eq 22\n permit ip any any\n"+e0+" ip access-group e0_in in\ninterface Loopback7\n ip address 10.77.0.1 255.255.255.255\n ip access-group e0_in in\n",
 			"ip access-list extended e0_in\n permit ip any any\n"+e0+" ip access-group e0_in in\n"),
+		// device = target up to the order inside runs of equal action: drc moves lines nevertheless (cosmetic; the
+		// converse of ios_F2_unchanged_only_if_equivalent does not hold: plan_second_script_counterexample)
+		mk("ip access-list extended e0_in\n permit tcp any any eq 80\n permit tcp any any eq 81\n deny tcp any any eq 90\n deny tcp any any eq 91\n"+e0+" ip access-group e0_in in\n",
+			"ip access-list extended e0_in\n permit tcp any any eq 81\n permit tcp any any eq 80\n deny tcp any any eq 91\n deny tcp any any eq 90\n"+e0+" ip access-group e0_in in\n"),
 		// routes of a VRF that has an interface but no routes in the target
 		mk(e0+"interface Ethernet1\n vrf forwarding V1\n ip address 10.2.2.1 255.255.255.0\nip route vrf V1 10.8.0.0 255.255.0.0 10.2.2.254\nip route 10.8.0.0 255.255.0.0 10.1.1.253\n",
 			e0+"interface Ethernet1\n vrf forwarding V1\n ip address 10.2.2.1 255.255.255.0\nip route 10.9.0.0 255.255.0.0 10.1.1.253\n"),
